@@ -9,7 +9,7 @@ use pest::Parser;
 use serde_json::{Value as Json, json};
 use simplesl::{
     Code, Interpreter,
-    variable::{Type, Variable},
+    variable::{ReturnType, Type, Variable},
 };
 use simplesl_parser::{Rule, SimpleSLParser};
 use std::{str::FromStr, sync::OnceLock};
@@ -279,6 +279,92 @@ fn import_programs() -> Vec<String> {
     out
 }
 
+/// files that import themselves, directly or through one or two other files, under every spelling
+/// of the path, next to files that are merely imported twice (a diamond is no cycle)
+const CYCLE_FILES: [(&str, &str); 9] = [
+    ("cyc_self", "import \"cyc_self\"; x := 1;"),
+    ("cyc_self_named", "me := import \"./cyc_self_named\"; x := 1;"),
+    ("cyc_a", "b := import \"cyc_b\"; x := 1;"),
+    ("cyc_b", "a := import \"cyc_a\"; y := 2;"),
+    ("cyc_1", "n := import \"cyc_2\";"),
+    ("cyc_2", "f := () { n := import \"cyc_3\"; };"),
+    ("cyc_3", "n := if true { import \"scratch_dir/../cyc_1\" } else { 0 };"),
+    ("dia_l", "d := import \"scratch_ok\"; l := d.p + 1;"),
+    ("dia_r", "d := import \"scratch_ok\"; r := d.p + 2;"),
+];
+
+fn cycle_programs() -> Vec<String> {
+    let mut out = vec![];
+    for file in ["cyc_self", "./cyc_self", "cyc_self_named", "cyc_a", "cyc_b", "cyc_1", "cyc_2", "cyc_3"] {
+        for ctx in ["import \"{}\"", "lib := import \"{}\"; lib", "f := () { lib := import \"{}\"; }; 1", "mod { lib := import \"{}\"; }", "import \"scratch_ok\"; import \"{}\""] {
+            out.push(ctx.replace("{}", file));
+        }
+    }
+    out.push("l := import \"dia_l\"; r := import \"dia_r\"; d := import \"scratch_ok\"; (l.l, r.r, d.p)".to_string());
+    out.push("a := import \"scratch_ok\"; b := import \"scratch_ok\"; a.p + b.p".to_string());
+    out
+}
+
+/// child side: a cyclic import that is followed for ever ends the process (stack overflow), which
+/// no guard inside the process can turn into a verdict. Every program is announced on stderr first.
+pub fn child(_mode: &str) -> i32 {
+    let dir = scratch_dir();
+    for (name, body) in CYCLE_FILES {
+        let _ = std::fs::write(dir.join(name), body);
+    }
+    let mut panics = 0;
+    let programs = cycle_programs();
+    for text in &programs {
+        eprintln!("START\t{text}");
+        for stdlib in [true, false] {
+            let interp = if stdlib { Interpreter::with_stdlib() } else { Interpreter::without_stdlib() };
+            let r = std::panic::catch_unwind(std::panic::AssertUnwindSafe(|| Code::parse(&interp, text).map(|c| c.return_type()).map_err(|e| e.to_string())));
+            match r {
+                Ok(Ok(_)) => eprintln!("ACCEPTED\t{text}"),
+                Ok(Err(_)) => {}
+                Err(_) => {
+                    panics += 1;
+                    eprintln!("PANIC\t{text}");
+                }
+            }
+        }
+    }
+    eprintln!("DONE\t{}", programs.len());
+    cleanup_scratch();
+    if panics > 0 { 1 } else { 0 }
+}
+
+fn check_import_cycles(stats: &mut Stats) -> Verdict {
+    use std::process::{Command, Stdio};
+    let Ok(out) = Command::new("/proc/self/exe").args(["C03", "child", "import-cycles"]).stdin(Stdio::null()).stdout(Stdio::null()).stderr(Stdio::piped()).output() else {
+        return Verdict::Inconclusive("child process did not start");
+    };
+    let report = String::from_utf8_lossy(&out.stderr).to_string();
+    let started: Vec<&str> = report.lines().filter_map(|l| l.strip_prefix("START\t")).collect();
+    stats.evals(2 * started.len() as u64);
+    stats.label("imports that form a cycle (child process)");
+    for t in &started {
+        stats.nontrivial(t);
+    }
+    if let Some(text) = report.lines().find_map(|l| l.strip_prefix("PANIC\t")) {
+        return fail("C03:Code::parse:cyclic-import:panic", format!("Code::parse panicked on `{text}` (files: {CYCLE_FILES:?})"));
+    }
+    if !report.lines().any(|l| l.starts_with("DONE\t")) {
+        if report.contains("INCONCLUSIVE") {
+            return Verdict::Inconclusive("child watchdog");
+        }
+        let last = started.last().copied().unwrap_or("<none>");
+        return fail(
+            "C03:Code::parse:cyclic-import:abort",
+            format!("the process ended ({:?}) inside Code::parse of `{last}`: a file that imports itself is followed until the stack overflows (files: {CYCLE_FILES:?}); {}", out.status, report.lines().filter(|l| l.contains("overflow")).take(1).collect::<String>()),
+        );
+    }
+    let accepted = report.lines().filter(|l| l.starts_with("ACCEPTED\t")).count();
+    stats.label_n("import programs accepted in the cycle catalogue (diamonds, repeated imports)", accepted as u64);
+    stats.sample(2, || json!({"import_cycle_programs": started.len(), "accepted": accepted}));
+    Verdict::Pass
+}
+
 pub enum Reach {
     Lexer,
     Checker(String),
@@ -427,6 +513,9 @@ impl Property for C03Prop {
         let _ = scratch_dir();
         let text = case["text"].as_str().unwrap_or("");
         let src = case["src"].as_str().unwrap_or("?");
+        if src == "import-cycles" {
+            return check_import_cycles(stats);
+        }
         if nesting_depth(text) > 40 {
             return Verdict::Discard("nesting deeper than 40 (stack exhaustion is outside the claim)");
         }
@@ -701,6 +790,7 @@ pub fn run(session: &Session) -> i32 {
     for p in crate::genr::nearmiss::duplicate_name_programs() {
         cases.push(json!({"src": "duplicate-names", "text": p}));
     }
+    cases.push(json!({"src": "import-cycles", "text": ""}));
     for p in import_programs() {
         cases.push(json!({"src": "imports", "text": p}));
     }
@@ -733,7 +823,7 @@ pub fn run(session: &Session) -> i32 {
         session.run_tapes(&C03, session.tier.of(60_000, 3_000_000), 400, 0);
     }
     let code = session.finish(
-        "(constant-folding: every pair of the i64 and f64 boundary grids under every foldable operator, and boundary ints in index, slice, length and propagated-binding positions) inputs fed to Code::parse (against an interpreter with stdlib and bound names, and against an empty one), Code::return_type, Error::to_string, Variable::from_str and Type::from_str: every sequence of 1-2 tokens (quick; 1-3 thorough) over a 138-token alphabet (all keywords, every operator, brackets, literal samples incl. a too-big int, bound and unbound identifiers, composite fragments) plus unfinished-construct prefixes x token x closer, random token sequences up to length 16/24, random derivations of the project's own pest grammar read at run time (start rules input/line/stm/expr/function/match/type/only_var/slicing; identifiers mapped onto bound names), token-level mutations (delete/duplicate/swap/replace/insert) of the README, docs and example scripts, the operator x operand-type matrix (every unary/postfix/statement template, every infix and assignment operator and 28 two-operand templates applied to parameters of 60 types incl. `!`, `any` and unions of arrays, tuples, structs, muts, functions and iterators), the same matrix over operands that are constants of a union static type and over operands whose type shrinks to `!` when a constant condition is folded away (`[v1, v2][k]`: every unary template x every catalogue value, every infix operator x all pairs of values of 30 scalar / union / any operand types), tape-generated typed programs of six profiles as they are and with token-level edits, a catalogue of names rebound from their own old (non-constant) value to a value of another type in every kind of body, 18 binding constructs x uses of the bound name after the construct, 33 spellings of integer literals in 30 positions, 10 always-failing constant operations in 28 syntactic positions, and imports of 13 file states (missing, directory, syntax error, type error, folding error, non-UTF-8, nested, empty, top-level return/break) in 11 positions. Oracle: no panic. Non-trivial = the text passes the grammar (reaches instruction construction); distinct by text.",
+        "(constant-folding: every pair of the i64 and f64 boundary grids under every foldable operator, and boundary ints in index, slice, length and propagated-binding positions) inputs fed to Code::parse (against an interpreter with stdlib and bound names, and against an empty one), Code::return_type, Error::to_string, Variable::from_str and Type::from_str: every sequence of 1-2 tokens (quick; 1-3 thorough) over a 138-token alphabet (all keywords, every operator, brackets, literal samples incl. a too-big int, bound and unbound identifiers, composite fragments) plus unfinished-construct prefixes x token x closer, random token sequences up to length 16/24, random derivations of the project's own pest grammar read at run time (start rules input/line/stm/expr/function/match/type/only_var/slicing; identifiers mapped onto bound names), token-level mutations (delete/duplicate/swap/replace/insert) of the README, docs and example scripts, the operator x operand-type matrix (every unary/postfix/statement template, every infix and assignment operator and 28 two-operand templates applied to parameters of 60 types incl. `!`, `any` and unions of arrays, tuples, structs, muts, functions and iterators), the same matrix over operands that are constants of a union static type and over operands whose type shrinks to `!` when a constant condition is folded away (`[v1, v2][k]`: every unary template x every catalogue value, every infix operator x all pairs of values of 30 scalar / union / any operand types), tape-generated typed programs of six profiles as they are and with token-level edits, a catalogue of names rebound from their own old (non-constant) value to a value of another type in every kind of body, 18 binding constructs x uses of the bound name after the construct, 33 spellings of integer literals in 30 positions, 10 always-failing constant operations in 28 syntactic positions, and imports of 13 file states (missing, directory, syntax error, type error, folding error, non-UTF-8, nested, empty, top-level return/break) in 11 positions, and (in a child process, whose death is the verdict) files that import themselves directly or through one or two others under several spellings of the path, next to diamonds and repeated imports. Oracle: no panic. Non-trivial = the text passes the grammar (reaches instruction construction); distinct by text.",
         false,
         &["inputs nested deeper than 40 brackets and imports outside the scratch directory are discarded and counted",
           "the working directory of the check process is a scratch directory"],
